@@ -4,6 +4,7 @@ import (
 	"github.com/golang/groupcache/lru"
 	"golang.org/x/time/rate"
 	"net"
+	"net/netip"
 	"sync"
 )
 
@@ -50,10 +51,14 @@ func NewQuota(eventsPerSecond float32, burst, maxEntries int) *Quota {
 // would let one subscriber rotate through its own addresses and evade the
 // limiter entirely.
 func ipKey(ipStr string) string {
-	ip := net.ParseIP(ipStr)
-	if ip == nil {
+	// netip.ParseAddr, unlike net.ParseIP, accepts a zone ("fe80::1%eth0" is the host
+	// of a link-local peer's RemoteAddr). The zone names the local interface, not the
+	// peer's network, so it is dropped; rejecting it would leave such peers unlimited.
+	addr, err := netip.ParseAddr(ipStr)
+	if err != nil {
 		return ""
 	}
+	ip := net.IP(addr.WithZone("").AsSlice())
 	if v4 := ip.To4(); v4 != nil {
 		return v4.Mask(net.CIDRMask(24, 32)).String()
 	}
